@@ -1,5 +1,7 @@
 import NeoFS.Lemmas.NNSAcc
 import NeoFS.Lemmas.NNSStr
+import NeoFS.Generated.Consts
+import NeoFS.Generated.Footprint
 set_option linter.unusedSimpArgs false
 set_option linter.unusedVariables false
 /-! # C10 — NNS ownership lifecycle and NEP-11 accounting stay consistent over time
@@ -434,5 +436,44 @@ example : (invoke (run init hist1) (envU U1 3000) (.renew aCom 1)).2 =
     some (.int (102000 + 31536000000), [.renew aCom 102000 (102000 + 31536000000)]) := by decide
 -- ten years at most: 100 s + 10 years lies beyond now + 10 years
 example : (invoke (run init hist1) (envU U1 3000) (.renew aCom 10)).2 = none := by decide
+
+/-! ## Frame of the model, regenerated: who can write the NEP-11 accounting and the name states
+
+Checked by kernel evaluation over `NeoFS.Generated.Footprint.table` (grouped by contract: `contracts`), the MAY-WRITE footprint recomputed from the Go sources on
+every run (`extract footprint`; `Model/Footprint.lean`). -/
+section Footprint
+open NeoFS.Footprint NeoFS.Generated.Footprint
+
+def fpTotalSupply : Fam := exactly NeoFS.Generated.nns_prefixTotalSupply_bytes
+def fpBalances : Fam := startingWith NeoFS.Generated.nns_prefixBalance_bytes
+def fpAccountTokens : Fam := startingWith NeoFS.Generated.nns_prefixAccountToken_bytes
+def fpNames : Fam := startingWith NeoFS.Generated.nns_prefixName_bytes
+def fpRoots : Fam := startingWith NeoFS.Generated.nns_prefixRoot_bytes
+
+/-- totalSupply is written only by `register` (and deployment); balances and the per-owner token index only by `register` and
+`transfer` (and the upgrade migration); nobody deletes totalSupply. -/
+theorem nep11_accounting_written_only_by_register_and_transfer :
+    onlyBy contracts "nns" "put" fpTotalSupply ["register", "_deploy"] = true ∧
+    onlyBy contracts "nns" "delete" fpTotalSupply [] = true ∧
+    onlyBy contracts "nns" "put" fpBalances ["register", "transfer", "_deploy"] = true ∧
+    onlyBy contracts "nns" "delete" fpBalances ["register", "transfer", "_deploy"] = true ∧
+    onlyBy contracts "nns" "put" fpAccountTokens ["register", "transfer", "_deploy"] = true ∧
+    onlyBy contracts "nns" "delete" fpAccountTokens ["register", "transfer", "_deploy"] = true := by decide +kernel
+
+/-- Name states (owner, admin, expiration) are written only by register / registerTLD / renew / transfer / setAdmin (and the
+migration) and are never deleted; the TLD set only by registerTLD (and the migration); the NEP-11 `Transfer` notification comes
+from `register` and `transfer` only. -/
+theorem name_states_written_only_by_the_ownership_methods :
+    onlyBy contracts "nns" "put" fpNames ["register", "registerTLD", "renew", "transfer", "setAdmin", "_deploy"] = true ∧
+    onlyBy contracts "nns" "delete" fpNames [] = true ∧
+    onlyBy contracts "nns" "put" fpRoots ["registerTLD", "_deploy"] = true ∧ onlyBy contracts "nns" "delete" fpRoots [] = true ∧
+    namedOnlyBy contracts "nns" "notify" "Transfer" ["register", "transfer"] = true := by decide +kernel
+
+example : does contracts "nns" "register" "put" fpTotalSupply = true ∧ does contracts "nns" "transfer" "put" fpBalances = true ∧
+    does contracts "nns" "transfer" "delete" fpAccountTokens = true ∧ does contracts "nns" "renew" "put" fpNames = true ∧
+    does contracts "nns" "registerTLD" "put" fpRoots = true ∧ named contracts "nns" "transfer" "notify" "Transfer" = true := by decide +kernel
+example : onlyBy (withRow contracts ⟨"nns", "renew", "put", "", "", NeoFS.Generated.nns_prefixTotalSupply_bytes, true⟩)
+    "nns" "put" fpTotalSupply ["register", "_deploy"] = false := by decide +kernel
+end Footprint
 
 end NeoFS.Props.C10
